@@ -4,7 +4,7 @@ Blocks == {1, 2}
 Sync == {1}
 PersistentAtStart == {1, 2}
 CONSTANT DisableOnError
-VARIABLES phase, live, store, ts, pers, startOk, now, failed
+VARIABLES phase, live, store, ts, pers, startOk, now, failed, dirty
 P == INSTANCE Persist
 Spec == P!PInit /\ [][P!PNext]_P!pvars
 StoreIsCurrent == P!StoreIsCurrent
